@@ -76,8 +76,10 @@ func c11Build(form int, pieces []c11Piece) (src, want string, ok bool) {
 			switch {
 			case raw && c == '`':
 				return "", "", false // no way to write a back-tick in a raw literal
-			case raw && interp && (c == '{' || c == '}'):
-				return "", "", false // no brace escape in $`...`
+			case raw && interp && c == '{':
+				return "", "", false // no brace escape in $`...`: an opening brace always starts a hole
+			case raw && interp && c == '}':
+				b.WriteByte(c) // a closing brace outside a hole is an ordinary character
 			case raw:
 				b.WriteByte(c)
 			case c == '"':
@@ -171,6 +173,16 @@ func c11Generate(tier string, rng *core.Rand) []*c11Lit {
 		for _, ch := range chars {
 			addPieces("single-char", form, []c11Piece{{ch, -1}})
 			addPieces("single-char-between-letters", form, []c11Piece{{"a" + ch + "b", -1}})
+			if len(ch) == 1 && (ch[0] < '0' || ch[0] > 'z' || ch == "\\" || ch == "^" || ch == "_" || ch == "`") {
+				// every ASCII punctuation character doubled and tripled, alone, between letters and
+				// after a hole (a doubled character must stay doubled: }} ,  %% , \"\" , ``...)
+				addPieces("doubled-char", form, []c11Piece{{ch + ch, -1}})
+				addPieces("doubled-char-between-letters", form, []c11Piece{{"a" + ch + ch + "b", -1}})
+				addPieces("tripled-char", form, []c11Piece{{ch + ch + ch, -1}})
+				if form >= 2 {
+					addPieces("doubled-char-after-hole", form, []c11Piece{{"", 0}, {ch + ch, -1}, {"", 1}})
+				}
+			}
 			if ch == "\n" || ch == "\t" {
 				if src, ok := c11Escaped(form, ch); ok {
 					add("escape", form, src, ch)
@@ -304,7 +316,7 @@ func runC11(r *core.Run, tier string) {
 		r.Inconclusive("fc does not build: " + err.Error())
 		return
 	}
-	r.Rule("a case is one literal in one of the four forms (\"..\", `..`, $\"..\", $`..`): every printable ASCII character, newline, tab and 64 multi-byte code points (2-, 3- and 4-byte) alone and between two letters (minus the characters that are syntax of the form), the four escapes, \\{ \\}, percent signs, holes of type int / string / bool / negative int / empty string / slice / record / tuple / record field at start, middle, end and adjacent, every sequence of 1..4 holes over three names, and seeded random bodies; the program prints each literal framed as <id>:<byte length>:<bytes>; the printed bytes are compared with the value the four documented rules give; non-trivial = body non-empty; distinct by literal text")
+	r.Rule("a case is one literal in one of the four forms (\"..\", `..`, $\"..\", $`..`): every printable ASCII character, newline, tab and 64 multi-byte code points (2-, 3- and 4-byte) alone and between two letters, every ASCII punctuation character doubled and tripled (minus the characters that are syntax of the form), the four escapes, \\{ \\}, percent signs, holes of type int / string / bool / negative int / empty string / slice / record / tuple / record field at start, middle, end and adjacent, every sequence of 1..4 holes over three names, and seeded random bodies; the program prints each literal framed as <id>:<byte length>:<bytes>; the printed bytes are compared with the value the four documented rules give; non-trivial = body non-empty; distinct by literal text")
 	r.Assume("only the escapes \\n \\t \\\\ \\\" (and \\{ \\} in $\"..\") are written; other backslash sequences are outside the statement", "holes of union type are not asserted (their display is fc's own Stringer text); float holes are not asserted")
 	lits := c11Generate(tier, core.NewRand(r.SeedV, "c11"))
 	// pass 1: 60 literals per program; pass 2: every literal of a failing program alone
